@@ -153,8 +153,13 @@ impl<'t, 'i> BlockParser<'t, 'i> {
                 }
                 T![escaped] => {
                     t.append_str(&self.input[start..end], start);
-                    debug_assert_eq!(token.len(), 2, "unexpected escaped token length");
-                    start = token.span.start() + 1; // skip "\"
+                    // "\" followed by any char, which can be wider than one byte
+                    if token.len() > 1 {
+                        start = token.span.start() + 1; // skip "\"
+                    } else {
+                        // a lone "\" at the end of the input escapes nothing, keep it
+                        start = token.span.start();
+                    }
                     end = token.span.end()
                 }
                 _ => end = token.span.end(),
